@@ -147,7 +147,7 @@ enum {
         P_R1_TEXT, P_R1_ATTR, P_R1_BADPAR, P_R2_SIZE, P_R23_DH, P_R24_FLOF, P_R25, P_R1_M2,
         P_MIP_R1, P_MIP_R11, P_MIP_R15,
         P_MOT_R1, P_MOT_R10, P_MOT_R19, P_MOT_R21, P_MOT_R22, P_MOT_R24,
-        P_BTT_R1, P_BTT_R21, P_AIT_R1, P_MPT_R1, P_MPX_R1, P_BTT_R21B, P_AIT_R1C, P_AIT_R1D,
+        P_BTT_R1, P_BTT_R21, P_AIT_R1, P_MPT_R1, P_MPX_R1, P_BTT_R21B, P_AIT_R1C, P_AIT_R1D, P_BTT_R1S,
         P_POP_R1, P_POP_R3, P_POP_R4, P_DRCS_R1, P_DRCS_R2,
         P_TRIG_A, P_TRIG_B, P_TRIG_C, P_TRIG_D, P_TRIG_E,
         /* enhancement */
@@ -253,6 +253,10 @@ static void build_packets(void)
         /* TOP */
         d = PN(P_BTT_R1, "BTT row1 (100..139)"); pk_addr(d, 1, 1);
         { static const int c[40] = { 4,8,9,10,11,1,2,3,6,7,  5,8,8,0,12,15,1,6,8,8,  4,10,10,8,8,8,7,8,8,1,  8,8,8,8,8,8,8,8,8,8 };
+          pk_nib(d, 2, c, 40); }
+        /* the same table with page 101 listed as a subtitle page: parse_btt() looks a listed subtitle page up in the cache */
+        d = PN(P_BTT_R1S, "BTT row1 (101 subtitles)"); pk_addr(d, 1, 1);
+        { static const int c[40] = { 4,1,9,10,11,1,2,3,6,7,  5,8,8,0,12,15,1,6,8,8,  4,10,10,8,8,8,7,8,8,1,  8,8,8,8,8,8,8,8,8,8 };
           pk_nib(d, 2, c, 40); }
         d = PN(P_BTT_R21, "BTT row21 (links AIT 17C, MPT 17D, MPT-EX 17E)"); pk_addr(d, 1, 21);
         { static const int l[5][8] = { {1,0x7,0xC,0,0,0,0,2}, {1,0x7,0xD,0,0,0,0,1}, {1,0x7,0xE,0,0,0,1,3}, {0,0xF,0xF,3,15,7,15,2}, {1,0,0,0,0,0,0,7} };
